@@ -193,7 +193,7 @@ async fn run_storm(a: &Args, m: &mut mon::Mon) {
                 w.refresh_oracles();
                 scen::close_bank_cycle(&mut w, m, &mut r, s.g, s.liquidator).await;
             }
-            if k % 500 == 350 && a.prop == "C16" {
+            if k % 500 == 350 && matches!(a.prop.as_str(), "C16" | "C01") {
                 // an account goes bankrupt (disabled), its owner moves it to a new address and tries to
                 // act with it there: the disabled status follows the positions
                 w.refresh_oracles();
@@ -298,6 +298,28 @@ async fn run_scen(a: &Args, m: &mut mon::Mon) {
                     scen::oracle_faults(&mut w, m, &mut r, &lev, lq, g).await
                 }
                 "C07" => {
+                    if r.gen_bool(0.5) {
+                        // the account owes in a second bank as well: settling one debt disables the
+                        // account although it still owes elsewhere
+                        let others: Vec<usize> = (0..nb).filter(|b| *b != lev.ca && *b != lev.db && w.banks[*b].venue.is_none() && w.bank(*b).config.asset_tag <= 1 && w.bank(*b).config.risk_tier == marginfi_type_crate::types::RiskTier::Collateral && w.bank(*b).config.operational_state == marginfi_type_crate::types::BankOperationalState::Operational).collect();
+                        if !others.is_empty() && w.bank(lev.db).config.risk_tier == marginfi_type_crate::types::RiskTier::Collateral {
+                            use solana_sdk::signer::Signer as _;
+                            let db2 = storm::pick(&mut r, &others);
+                            let lk = w.auth_of(lq);
+                            let i = w.ix_deposit(lq, db2, lk.pubkey(), w.ta_of(lq, db2), 1 << 24, None);
+                            let _ = w.exec(m, &[i], &[&lk]).await;
+                            let auth = w.auth_of(lev.acct);
+                            let mut second = false;
+                            for amt in [100_000u64, 1000, 10] {
+                                let i = w.ix_borrow(lev.acct, db2, auth.pubkey(), w.ta_of(lev.acct, db2), amt);
+                                if w.exec(m, &[i], &[&auth]).await.ok() {
+                                    second = true;
+                                    break;
+                                }
+                            }
+                            m.r.count(if second { "scen.bankruptcy_of_account_with_second_debt" } else { "scen.second_debt_not_possible" });
+                        }
+                    }
                     scen::bankruptcy(&mut w, m, &mut r, &lev, g).await;
                     if r.gen_bool(0.15) {
                         scen::wipeout(&mut w, m, &mut r, g, lq).await;
